@@ -167,7 +167,8 @@ class Ctx:
                 "      if let some (.thmInfo _) := env.find? n then\n"
                 "        if !n.isInternalDetail then\n"
                 "          let ax ← liftCoreM (collectAxioms n)\n"
-                "          logInfo m!\"AUDIT {n} :: {ax.toList}\"\n"
+                "          let some ci := env.find? n | continue\n"
+                "          logInfo m!\"AUDIT {n} :: {ax.toList} :: H{hash ci.type}\"\n"
             )
         p = _run(["lake", "env", "lean", path], cwd=LEAN, timeout=1200)
         txt = p.stdout + p.stderr
@@ -175,9 +176,21 @@ class Ctx:
             self.build_ok = False
             self.build_log += txt
             return
-        for m in re.finditer(r"AUDIT (\S+) :: \[(.*?)\]", txt, re.S):
+        self.theorem_hashes = {}
+        for m in re.finditer(r"AUDIT (\S+) :: \[(.*?)\](?: :: H(\d+))?", txt, re.S):
             name, ax = m.group(1), [a.strip() for a in m.group(2).replace("\n", " ").split(",") if a.strip()]
             self.theorems[name] = ax
+            if m.group(3):
+                self.theorem_hashes[name] = m.group(3)
+        # theorem lock: a property theorem that was there when the lock was written must still be there
+        lock_path = os.path.join(LEAN, "theorems.lock.json")
+        if os.path.exists(lock_path):
+            lock = json.load(open(lock_path)).get(self.pid, {})
+            missing = sorted(n for n in lock if n not in self.theorems)
+            changed = sorted(n for n in lock if n in self.theorem_hashes and lock[n] != self.theorem_hashes[n])
+            self.extra["theorem_lock"] = {"locked": len(lock), "missing": missing, "statement_changed": changed}
+            if missing:
+                raise Infra(f"property theorems listed in lean/theorems.lock.json are gone: {missing} (re-run bin/lock only if that is deliberate)")
         self.obligations = len(self.theorems)
         bad = {n: ax for n, ax in self.theorems.items() if not set(ax) <= ALLOWED_AXIOMS}
         self.discharged = self.obligations - len(bad)
